@@ -195,6 +195,9 @@ func genNetModel(t *rapid.T, o modelOpts) NetModel {
 	}
 	if chance(t, "deny?", mc+1) {
 		m.Deny = subsetOf(t, "deny", baseDomains, 3)
+		if chance(t, "deny-wild", 5) {
+			m.Deny = append(m.Deny, pick(t, "deny-wilddom", wildDomains))
+		}
 	}
 	if chance(t, "dnstype?", mc+1) {
 		for _, q := range subsetOf(t, "dnstypes", dnsNames, 3) {
@@ -434,7 +437,7 @@ func genQ(t *rapid.T, m *NetModel) Q {
 	var q Q
 	q.Host = chance(t, "hostreq", 3)
 	hosts := []string{"example.org", "www.example.org", "google.com", "a.com", "1.2.3.4", "1.2.9.9", "notexample.org",
-		"EXAMPLE.org", "sub.example.org", "ads.example.com", "google.co.uk", "b.net", "x.a.com"}
+		"EXAMPLE.org", "sub.example.org", "ads.example.com", "google.co.uk", "b.net", "x.a.com", "abc.de", "dead.beef", "1.2.3"}
 	h := pick(t, "host", hosts)
 	if m != nil && len(m.Deny) > 0 && chance(t, "deny-host", 2) {
 		h = hostVariant(t, "denyvariant", pick(t, "denyd", m.Deny))
@@ -748,7 +751,8 @@ func netTexts(rs []*rules.NetworkRule) []string {
 // requests built from the rule: satisfy every modifier, then break 0..2 of them
 
 var candHosts = []string{"example.org", "www.example.org", "google.com", "a.com", "1.2.3.4", "1.2.9.9", "notexample.org",
-	"sub.example.org", "ads.example.com", "google.co.uk", "b.net", "x.a.com", "x.sub.example.org", "ads.net"}
+	"sub.example.org", "ads.example.com", "google.co.uk", "b.net", "x.a.com", "x.sub.example.org", "ads.net",
+	"abc.de", "dead.beef", "1.2.3"} // hex digits and dots only, but not IP addresses
 
 func candidateURLs() []string {
 	var out []string
@@ -957,7 +961,7 @@ func modelKey(m NetModel) string {
 	ss := func(xs []string) string {
 		c := append([]string{}, xs...)
 		sort.Strings(c)
-		return strings.Join(c, "|")
+		return strings.Join(uniqSorted(c), "|") // value SETS: a repeated value adds nothing
 	}
 	cs := func(xs []Cli) string {
 		var c []string
